@@ -526,7 +526,6 @@ func c09TScenarios() []tScenario {
 	return out
 }
 
-
 // ---------------------------------------------------------------- C06: the suspicion timer's callback racing a refutation
 
 // x is suspect with a running timer. At the very instant the timer expires a
